@@ -88,17 +88,22 @@ func (c *hbConn) recvLoop() {
 			continue
 		}
 
-		if err != nil {
+		if err != nil && n == 0 {
 			c.Close()
 			return
 		}
 
 		timer := time.NewTimer(c.timeout)
 		select {
-		case c.recvCh <- errBytes{buffer[:n], err}:
+		case c.recvCh <- errBytes{buffer[:n], nil}:
 			timer.Stop()
-			continue
 		case <-timer.C:
+			c.Close()
+			return
+		}
+
+		// bytes returned together with an error are delivered before the close
+		if err != nil {
 			c.Close()
 			return
 		}
